@@ -13,31 +13,31 @@ CHECKS = {
         "on every Map of the bounded space, prints every (Map, path, expected values) and the Go harness replays all of them "
         "on the real ValuesForPath/ValueForPath/Exists/ValueForPathString. Exhaustive inside the bounds, which is the right level "
         "for a pure query whose defects are shape dependent (the pinned defect needed two indexed steps). Parametric families extend the reach: MC_Wide (lists/maps of 31-65 entries under four SetArraySize settings) and MC_Deep (four-level Maps, every path over the key chain with each step plain, indexed in/out of range or wildcard: 780 paths per Map). The same document held as a graph (equal sub-documents as one object) must give the same values; lists of 300 members with three-digit indexes.",
-   ref="DESIGN.md section 4, C07", technique="TLA+ spec + TLC exhaustive enumeration, spec->code replay of every behaviour"),
+   ref="DESIGN.md section 4, C07", technique="TLA+ spec + TLC exhaustive enumeration, spec->code replay of every behaviour + code->spec trace validation (recorded sessions; every such call the repository's own tests make, observed through wrapped methods in a scratch copy, validated by Trace_Path.tla)"),
  "C08": dict(
    text="TLA+ specification of ValuesForKey, PathsForKey, PathForKeyShortest and the sub-key predicate (typed, wildcard, negated); TLC checks on every "
         "Map of the bounded space that key search equals the union over the key's paths, that sub-keys are a pure filter and that the shortest path is minimal, "
         "and prints expected results for every (Map, key, condition set); the harness replays them under both field separators. Sessions of Mxj.tla: sub-key STRINGS that are legal under both field separators (and denote different conditions), every history of SetFieldSeparator calls interleaved with key searches, compared after every search.",
-   ref="DESIGN.md section 4, C08", technique="TLA+ spec + TLC exhaustive enumeration, spec->code replay"),
+   ref="DESIGN.md section 4, C08", technique="TLA+ spec + TLC exhaustive enumeration, spec->code replay + code->spec trace validation (recorded sessions; every such call the repository's own tests make, observed through wrapped methods in a scratch copy, validated by Trace_Path.tla)"),
  "C09": dict(
    text="TLA+ specification of LeafNodes (exact path strings, both notations, no-attr option); TLC checks one leaf per scalar, resolution through the indexed "
         "path semantics and the no-attr clause on every Map of the bounded space (keys include the empty key, an attribute key and the text key); the harness "
         "replays LeafNodes/LeafPaths/LeafValues under three attribute prefixes and resolves every returned path through the real ValuesForPath. Sessions of Mxj.tla: every history of LeafUseDotNotation (set / clear / toggle) and SetAttrPrefix calls interleaved with LeafNodes, compared after every call.",
-   ref="DESIGN.md section 4, C09", technique="TLA+ spec + TLC exhaustive enumeration, spec->code replay"),
+   ref="DESIGN.md section 4, C09", technique="TLA+ spec + TLC exhaustive enumeration, spec->code replay + code->spec trace validation (recorded sessions; every such call the repository's own tests make, observed through wrapped methods in a scratch copy, validated by Trace_Path.tla)"),
  "C10": dict(
    text="Operational TLA+ specification of UpdateValuesForPath (one branch per code case) checked by TLC against an independently written declarative frame "
         "condition (only entries under the key, at locations the path addresses, where the conditions hold; count = number of replaced values; read-back clause) "
         "for every Map x key x path x condition set of the bounded space; every transition (pre, args, post, count) is replayed on the real code in all three newVal forms.",
-   ref="DESIGN.md section 4, C10", technique="TLA+ operational spec vs declarative frame theorem (TLC), transitions replayed on the code"),
+   ref="DESIGN.md section 4, C10", technique="TLA+ operational spec vs declarative frame theorem (TLC), transitions replayed on the code + code->spec trace validation (recorded sessions; every such call the repository's own tests make, observed through wrapped methods in a scratch copy, validated by Trace_Path.tla)"),
  "C11": dict(
    text="TLA+ specification of SetValueForPath / Remove / RenameKey with explicit outcome classes and declarative frame conditions checked by TLC on every Map "
         "without empty lists x every path through maps; every operation is replayed on the real code (outcome class, post-state, read-back), a panic never matches.",
-   ref="DESIGN.md section 4, C11", technique="TLA+ spec + TLC exhaustive enumeration, spec->code replay"),
+   ref="DESIGN.md section 4, C11", technique="TLA+ spec + TLC exhaustive enumeration, spec->code replay + code->spec trace validation (recorded sessions; every such call the repository's own tests make, observed through wrapped methods in a scratch copy, validated by Trace_Path.tla)"),
  "C12": dict(
    text="TLA+ specification of NewMap (pair folding over the indexed path semantics) with a declarative content rule checked by TLC; every (Map, pair list) of the "
         "bounded space is replayed on real objects: the receiver is deep-compared before/after every call including overlapping pairs, the content is compared when no "
         "new path equals or extends another, malformed pairs must be rejected.",
-   ref="DESIGN.md section 4, C12", technique="TLA+ spec + TLC exhaustive enumeration, spec->code replay on live objects"),
+   ref="DESIGN.md section 4, C12", technique="TLA+ spec + TLC exhaustive enumeration, spec->code replay on live objects + code->spec trace validation (recorded sessions; every such call the repository's own tests make, observed through wrapped methods in a scratch copy, validated by Trace_Path.tla)"),
  "C13": dict(
    text="TLA+ specification MxjStream of source (every legal per-byte outcome of io.Reader.Read: data, data+EOF, (0,nil), EOF), byte adaptor, decoder, "
         "single-call loop and bulk handlers with nondeterministic verdicts; XML document boundaries by construction, the JSON brace scanner modelled at character level over "
@@ -68,7 +68,7 @@ CHECKS = {
    text="Same encoder specification applied to JSON-shaped values enumerated by the Map builder (attribute and text keys, empty containers, nil, nested/mixed lists, special characters, number and boolean tokens): "
         "TLC checks per key path that the leaf sequences of the value and of Decode(Encode(value)) agree, one root, and an error exactly for non-scalar attribute entries; the harness compares the exact bytes of "
         "Map.Xml(), Map.Xml(root), AnyXml (Map and every top-level value) under both empty-element syntaxes, token equivalence of the indented forms, and the real decode of the output with the specification's. The whole space is run a second time under the attribute prefix @ and the reserved-key prefix _; bytes returned by an encoder are compared again after later encoder calls (held-result oracle). MC_C03t extends the value space to the Go-typed values a caller may put into a Map (int, int32, int64, float32, json.Number, []byte, []string, []map[string]interface{}): the bytes must be those of the untyped value.",
-   ref="DESIGN.md section 4, C03", technique="TLA+ encoder spec + declarative leaf-preservation theorem (TLC), byte-exact spec->code replay"),
+   ref="DESIGN.md section 4, C03", technique="TLA+ encoder spec + declarative leaf-preservation theorem (TLC), byte-exact spec->code replay + code->spec trace validation (recorded sessions; every Map.Xml call of the repository's own tests validated by Trace_Xml.tla)"),
  "C04": dict(
    text="TLA+ specification MxjSeq of the sequence-preserving codec: DecodeSeq (per-parent counter over children, text, comments, directives, processing instructions; attribute positions; prefix-preserving names) "
         "and EncodeSeq (attributes by position, text first, entries by sequence number with lists unrolled) with an exact-bytes renderer. TLC checks Encode(Decode(d)) = d (canonical form) for every document of the builder "
